@@ -83,9 +83,14 @@ def gen(seed, tier):
         scripts.append(sc)
     packers = [{'delay': r.randrange(0, 120),
                 'dt': r.choice((-2.0, -0.2, 0.0, 0.0, 0.3, 5.0))}]
-    if r.random() < 0.3:
+    if r.random() < 0.35:
         packers.append({'delay': r.randrange(0, 200),
                         'dt': r.choice((-0.2, 0.0, 5.0))})
+        if r.random() < 0.4:
+            # a third caller: while one pack runs, a refused call must
+            # not open the door for the next one
+            packers.append({'delay': r.randrange(0, 250),
+                            'dt': r.choice((-0.2, 0.0, 5.0))})
     return {'arm': arm, 'kind': 'file', 'ncell': ncell, 'scripts': scripts,
             'packers': packers,
             'st_opts': {'pack_keep_old': r.random() < 0.5},
